@@ -30,6 +30,8 @@ func (server *Server) Del(conn *redis.Conn, keys []string) (*redis.Message, erro
 	if err != nil {
 		return nil, err
 	}
+	db.Lock()
+	defer db.Unlock()
 	removedCount := 0
 	for _, key := range keys {
 		err := db.RemoveRecord(key)
@@ -45,6 +47,8 @@ func (server *Server) Exists(conn *redis.Conn, keys []string) (*redis.Message, e
 	if err != nil {
 		return nil, err
 	}
+	db.Lock()
+	defer db.Unlock()
 	existCount := 0
 	for _, key := range keys {
 		_, ok := db.GetRecord(key)
@@ -60,6 +64,8 @@ func (server *Server) Expire(conn *redis.Conn, key string, opt redis.ExpireOptio
 	if err != nil {
 		return redis.NewIntegerMessage(0), nil
 	}
+	db.Lock()
+	defer db.Unlock()
 	record, ok := db.GetRecord(key)
 	if !ok {
 		return redis.NewIntegerMessage(0), nil
@@ -74,6 +80,8 @@ func (server *Server) Type(conn *redis.Conn, key string) (*redis.Message, error)
 	if err != nil {
 		return nil, err
 	}
+	db.Lock()
+	defer db.Unlock()
 	record, ok := db.GetRecord(key)
 	if !ok {
 		return redis.NewStringMessage("none"), nil
@@ -98,6 +106,8 @@ func (server *Server) Keys(conn *redis.Conn, pattern string) (*redis.Message, er
 	if err != nil {
 		return nil, err
 	}
+	db.Lock()
+	defer db.Unlock()
 	r, err := glob.Compile(pattern)
 	if err != nil {
 		return nil, err
@@ -117,6 +127,8 @@ func (server *Server) Rename(conn *redis.Conn, key string, newkey string, opt re
 	if err != nil {
 		return nil, err
 	}
+	db.Lock()
+	defer db.Unlock()
 	if !db.HasRecord(key) {
 		return nil, fmt.Errorf("%w: %s", ErrNotFound, key)
 	}
@@ -142,6 +154,8 @@ func (server *Server) TTL(conn *redis.Conn, key string) (*redis.Message, error) 
 	if err != nil {
 		return nil, err
 	}
+	db.Lock()
+	defer db.Unlock()
 	record, ok := db.GetRecord(key)
 	if !ok {
 		return redis.NewIntegerMessage(ttlRecordNotFound), nil
@@ -162,6 +176,8 @@ func (server *Server) Scan(conn *redis.Conn, cursor int, opt redis.ScanOption) (
 	if err != nil {
 		return nil, err
 	}
+	db.Lock()
+	defer db.Unlock()
 	keys := db.Keys()
 	sort.Strings(keys)
 	matchKeys := proto.NewArray()
